@@ -41,7 +41,7 @@ from typing import Dict, List, Optional, Sequence, Tuple
 from .py2lean import TranslationError, find_function
 
 VLOG, VLIN, LOG, LIN, NAT, OPTNAT, IDX, ARR, STR, BOOL, NONE = "VLOG VLIN LOG LIN NAT OPTNAT IDX ARR STR BOOL NONE".split()
-LEAN_TY = {VLOG: "List K", VLIN: "List K", LOG: "K", LIN: "K", NAT: "Nat", OPTNAT: "Option Nat", IDX: "List Nat",
+LEAN_TY = {"VNAT": "List Nat", VLOG: "List K", VLIN: "List K", LOG: "K", LIN: "K", NAT: "Nat", OPTNAT: "Option Nat", IDX: "List Nat",
            ARR: "List α", STR: "String", BOOL: "Bool"}
 
 
@@ -61,8 +61,13 @@ class VecSpec:
     uses_int: bool = False
     nested: str = "nested_samples"
     doc: str = ""
+    uses_ex: bool = False                                  # the exponential is needed (a logarithm written out as a real)
     lsum: str = "lsum"                                    # name of the sum primitive in the target namespace
     vec_calls: Dict[str, str] = field(default_factory=dict)   # python callee of two vectors -> Lean binary operator (elementwise)
+
+
+class Unbound(Exception):
+    """a local that is assigned on another path only: Python raises UnboundLocalError at this statement"""
 
 
 class _V:
@@ -70,6 +75,7 @@ class _V:
         self.spec = spec
         self.ver: Dict[str, int] = {}
         self.local_attrs: Dict[str, Tuple[str, str]] = {}
+        self.assigned_somewhere = set()
 
     def fail(self, node, why):
         where = f"{self.spec.cls + '.' if self.spec.cls else ''}{self.spec.func}"
@@ -86,6 +92,8 @@ class _V:
         if isinstance(e, ast.Name):
             if e.id in env:
                 return env[e.id]
+            if e.id in self.assigned_somewhere:
+                raise Unbound(e.id)
             self.fail(e, "undeclared name")
         if isinstance(e, ast.Attribute) and isinstance(e.value, ast.Name) and e.value.id == "self" \
                 and (e.attr in self.local_attrs or e.attr in sp.self_attrs):
@@ -94,6 +102,32 @@ class _V:
         if isinstance(e, ast.Constant) and e.value is None:
             return NONE, "none"
         text = ast.unparse(e)
+        if isinstance(e, ast.Call) and ast.unparse(e.func) == "np.arange" and len(e.args) == 3 and ast.unparse(e.args[1]) == "0" \
+                and ast.unparse(e.args[2]) == "-1" and all(k.arg == "dtype" and ast.unparse(k.value) == "float" for k in e.keywords):
+            t, v = self.expr(e.args[0], env)
+            if t == NAT:
+                return "VNAT", f"(countdown {v})"
+            self.fail(e, "np.arange(n, 0, -1) of something that is not a count")
+        # shrinkage per live count: -1.0 / n  (the logarithm itself: through `ex`)  and  -np.log1p(1.0 / n)
+        if isinstance(e, ast.BinOp) and isinstance(e.op, ast.Div) and ast.unparse(e.left) == "-1.0":
+            t, v = self.expr(e.right, env)
+            if t == "VNAT":
+                return VLOG, f"({v}.map (fun (k : Nat) => ex (-1 / (k : K))))"
+        if isinstance(e, ast.UnaryOp) and isinstance(e.op, ast.USub) and isinstance(e.operand, ast.Call) \
+                and ast.unparse(e.operand.func) == "np.log1p" and len(e.operand.args) == 1 \
+                and isinstance(e.operand.args[0], ast.BinOp) and isinstance(e.operand.args[0].op, ast.Div) \
+                and ast.unparse(e.operand.args[0].left) == "1.0":
+            t, v = self.expr(e.operand.args[0].right, env)
+            if t == "VNAT":
+                return VLOG, f"({v}.map (fun (k : Nat) => 1 / (1 + 1 / (k : K))))"
+        # log-scalar + cumulative sum of log vector: cumulative product started from the scalar
+        if isinstance(e, ast.BinOp) and isinstance(e.op, ast.Add) and isinstance(e.right, ast.Call) \
+                and ast.unparse(e.right.func) == "np.cumsum" and len(e.right.args) == 1:
+            tl, l = self.expr(e.left, env)
+            tr, r = self.expr(e.right.args[0], env)
+            if tl == LOG and tr == VLOG:
+                return VLOG, f"(cumprodFrom {l} {r})"
+            self.fail(e, "cumulative sum outside the fragment")
         if text == "-np.inf":
             return LOG, "0"                                  # the log of zero
         if text == "np.log(2)":
@@ -217,6 +251,12 @@ class _V:
 
     # ------------------------------------------------------------------ conditions on strings
     def str_cond(self, c, env) -> Optional[str]:
+        if isinstance(c, ast.Compare) and len(c.ops) == 1 and isinstance(c.ops[0], ast.Eq) \
+                and isinstance(c.comparators[0], ast.Constant) and isinstance(c.comparators[0].value, str):
+            left = ast.unparse(c.left)
+            for attr, (ln, ty) in self.spec.self_attrs.items():
+                if ty == STR and left == f"self.{attr}.lower()":
+                    return f'{ln} = "{c.comparators[0].value}"'   # `ln` stands for the lower-cased option
         if isinstance(c, ast.Compare) and len(c.ops) == 1 and isinstance(c.left, ast.Name) and env.get(c.left.id, ("",))[0] == STR:
             v = env[c.left.id][1]
             r = c.comparators[0]
@@ -233,6 +273,14 @@ class _V:
                    for s in body)
 
     def block(self, stmts, env, ind) -> str:
+        try:
+            return self._block(stmts, env, ind)
+        except Unbound:
+            if not self.spec.result.startswith("Option"):
+                raise TranslationError(f"{self.spec.func}: a local may be unbound but the modelled result has no error value")
+            return "  " * ind + "none"
+
+    def _block(self, stmts, env, ind) -> str:
         pad = "  " * ind
         if not stmts:
             raise TranslationError(f"{self.spec.func}: control reaches the end of the function without a return")
@@ -252,6 +300,8 @@ class _V:
                 parts = [self.expr(x, env) for x in st.value.elts]
                 return f"{pad}.ok (" + ", ".join(v for _, v in parts) + ")"
             t, v = self.expr(st.value, env)
+            if self.spec.result.startswith("Option"):
+                return f"{pad}some {v}"
             return f"{pad}{v}" if self.spec.result in ("K", "Nat", "List K") else f"{pad}.ok {v}"
         if isinstance(st, ast.Assign) and len(st.targets) == 1 and isinstance(st.targets[0], ast.Attribute) \
                 and isinstance(st.targets[0].value, ast.Name) and st.targets[0].value.id == "self":
@@ -328,12 +378,16 @@ def translate(repo, spec: VecSpec) -> Tuple[str, dict]:
     if got != want or fn.args.vararg or fn.args.kwarg or fn.args.kwonlyargs:
         raise TranslationError(f"{spec.func}: signature {got} differs from the modelled one {want}")
     v = _V(spec)
+    v.assigned_somewhere = {t.id for n_ in ast.walk(fn) if isinstance(n_, (ast.Assign, ast.AugAssign))
+                            for t in (n_.targets if isinstance(n_, ast.Assign) else [n_.target]) if isinstance(t, ast.Name)}
     env = {}
     for py, ln, ty in spec.params:
         if ln is not None:
             env[py] = (ty, ln)
     body = v.block(list(fn.body), env, 1)
     params = []
+    if getattr(spec, "uses_ex", False):
+        params.append("(ex : K → K)")
     if spec.uses_int:
         params.append("(intOf : K → Nat)")
     for _, (ln, ty) in spec.self_attrs.items():
